@@ -15,7 +15,7 @@ import signal
 import tokenize
 import warnings
 
-from vk import boot, pt, psfull, run as vrun
+from vk import boot, pt, psexpr, psfull, run as vrun
 
 ID = "C15"
 LEVEL = "exploration"
@@ -166,9 +166,51 @@ def work(item):
       r["id"] = pid
       res.append(r)
     return res
+  if kind == "exprpack":
+    # ident = (context, [(id, statement), ...]); the statements are independent `x = <expr>` lines
+    ctx, stmts = ident
+    if len(stmts) > 1:
+      r = analyse(_pack_src(ctx, [st for _, st in stmts]))
+      if not r.get("bad") and r["outcome"].startswith("analysed"):
+        return [dict(r, id=i) for i, _ in stmts]
+    res = []
+    for i, st in stmts:   # a pack that failed in any way is re-run one statement per program
+      r = analyse(_pack_src(ctx, [st]))
+      r["id"] = i
+      r["src"] = _pack_src(ctx, [st])
+      res.append(r)
+    return res
   r = analyse(src)
   r["id"] = ident
   return [r]
+
+
+PACK = 8
+
+
+def _pack_src(ctx, stmts):
+  if ctx == "mod":
+    return psexpr.PRELUDE + "".join(st + "\n" for st in stmts)
+  return psexpr.PRELUDE + "def g(a, b, c):\n" + "".join("  " + st + "\n" for st in stmts) + "  return a\n"
+
+
+def expr_items(depth, core_only, contexts):
+  """Work items for PS-expr: `x = <expr>` statements packed PACK per program, everything else alone."""
+  items = []
+  for ctx in contexts:
+    pack = []
+    for eid, stmt in psexpr.expressions(depth, core_only):
+      eid = eid + "@" + ctx
+      if not stmt.startswith("x = ") or not psexpr.compilable(stmt):
+        items.append(("exprpack", (ctx, [(eid, stmt)]), None))
+        continue
+      pack.append((eid, stmt))
+      if len(pack) == PACK:
+        items.append(("exprpack", (ctx, pack), None))
+        pack = []
+    if pack:
+      items.append(("exprpack", (ctx, pack), None))
+  return items
 
 
 def run(rep, tier, seed):
@@ -184,6 +226,19 @@ def run(rep, tier, seed):
       items.append(("mutant", pid + "|" + mid, msrc))
   for name, src in corpus(max_lines) if max_lines else []:
     items.append(("corpus", name, src))
+  # PS-expr: expressions (displays, stars, calls, operators, comprehensions...) over colliding atoms,
+  # match patterns x subjects, annotated-statement shapes
+  if tier == "quick":
+    items += expr_items(1, True, ("mod",))
+    pats = psexpr.patterns(1, ("na", "nb", "enum", "inst"))
+  else:
+    items += expr_items(1, False, ("mod", "fn")) + [it for it in expr_items(2, True, ("mod",)) if it[1][1][0][0].startswith("expr2:")]
+    pats = psexpr.patterns(2)
+  n_expr = sum(len(it[1][1]) for it in items if it[0] == "exprpack")
+  for pid, src in pats:
+    items.append(("pattern", pid, src))
+  for aid, src in psexpr.annotations():
+    items.append(("annot", aid, src))
   sigs = {}
   for item, results in vrun.pmap(work, items, seed=seed, chunksize=1, progress=2000):
     for r in results:
@@ -197,14 +252,17 @@ def run(rep, tier, seed):
         key = vrun.sha(r["sig"])
         if key not in sigs:
           sigs[key] = True
-          src = item[2] if item[2] is not None else psfull.source(r["id"])
+          src = r.get("src") or (item[2] if item[2] is not None else psfull.source(r["id"]))
           rep.violation(key, "%s [%s]: %s" % (item[0], r["id"], r["bad"]), {"src": src, "sig": r["sig"], "id": r["id"]})
         else:
           rep.outcome("further-inputs-with-a-reported-signature")
   rep.sample({"psfull": psfull.source("afn:tryfull.3>asyncfor.0>break") if tier else ""})
   rep.sample({"mutant_of": seed_programs(1)[0][0], "menu": MENU})
   rep.cov.update({"psfull_depth": depth, "mutation_seeds": nseeds, "token_menu": MENU,
-                  "corpus_files": sum(1 for i in items if i[0] == "corpus"), "work_items": len(items)})
+                  "corpus_files": sum(1 for i in items if i[0] == "corpus"), "work_items": len(items),
+                  "psexpr_statements": n_expr, "psexpr_pack": PACK,
+                  "psexpr_patterns": sum(1 for i in items if i[0] == "pattern"),
+                  "psexpr_annotated_statements": sum(1 for i in items if i[0] == "annot")})
   rep.rule = ("every PS-full candidate of the tier (compilable or not), every 1-token deletion / menu insertion of the seed "
               "programs, stdlib files <= max_lines (thorough); non-trivial = sources that compile and were analysed by the VM; "
               "violations are keyed by failure signature (exception type @ raising site, or oracle clause) with the first witness")
